@@ -42,6 +42,8 @@ TARGETS = {
     ("utils/transform.py", "__call__"), ("parser/cls.py", "init_dataclass"), ("parser/cls.py", "transform_dataclass"),
     # union resolution consults per-type facts about its members (does a member contain ~ / ^ ?)
     ("parser/rule.py", "logical_parse"), ("parser/rule.py", "_widens_when_strict"),
+    # every instance construction looks its class's parser up through code shared by all data classes
+    ("parser/cls.py", "get_parser"), ("parser/cls.py", "__init__"),
 }
 _uid = itertools.count()
 _S = {}
